@@ -1263,6 +1263,19 @@ func (x *Exec) appendSlice(st *State, et types.Type, s, t *Term, tlen *Term, one
 	contents := Select(arr, b)
 	if one != nil {
 		contents = Store(contents, Add(o, l), one)
+		// the same fact in the vocabulary of the slice-element function (trigger for quantified
+		// contract clauses about the elements)
+		if !strings.Contains(contents.Key(), "bv!") {
+			kv := Var("bv!a", SInt)
+			name := "sget!" + sanitize(string(contents.Sort))
+			if _, ok := theU.funcs[name]; ok {
+				lhs := App(name, contents.Sort.ArrElem(), contents, o, kv)
+				rhs := Ite(Eq(kv, l), one, App(name, contents.Sort.ArrElem(), Select(arr, b), o, kv))
+				f := &Term{Op: "forall", Args: []*Term{kv, Eq(lhs, rhs)}, Sort: SBool}
+				f.key = "(forall ((bv!a Int)) (! " + Eq(lhs, rhs).Key() + " :pattern (" + lhs.Key() + ")))"
+				st.add(f)
+			}
+		}
 	} else {
 		// several elements: contents beyond the old length come from t (element-wise facts on demand)
 		nw := x.freshVar("appended", contents.Sort)
@@ -1353,6 +1366,17 @@ func (P *Program) typeTag(t types.Type) int {
 	n := len(P.typeTags) + 1
 	P.typeTags[k] = n
 	P.tagTypes = append(P.tagTypes, t)
+	return n
+}
+
+// tagByName: a type tag for an external concrete type the engine knows only by name.
+func (P *Program) tagByName(name string) int {
+	if n, ok := P.typeTags[name]; ok {
+		return n
+	}
+	n := len(P.typeTags) + 1
+	P.typeTags[name] = n
+	P.tagTypes = append(P.tagTypes, types.Typ[types.UnsafePointer])
 	return n
 }
 
